@@ -31,13 +31,18 @@ KERNELS = [
     ("Diff", "strax/processing/general.py", "diff", "diff_prog", "C07,C17"),
     ("FindBreakI", "strax/processing/general.py", "_find_break_i", "find_break_i_prog", "C17"),
     ("FcIn", "strax/processing/general.py", "_fc_in", "fc_in_prog", "C17"),
+    ("OverlapIndices", "strax/processing/general.py", "overlap_indices", "overlap_indices_prog", "C17"),
+    ("TouchingWindows", "strax/processing/general.py", "_touching_windows", "touching_windows_prog", "C17"),
+    ("RecordLinks", "strax/processing/pulse_processing.py", "record_links", "record_links_prog", "C18"),
 ]
 
 
 def dependents(name, prop):
     """compiled files that must not survive when Gen/<name>.v cannot be produced"""
-    return (["Gen/%s" % name, "Proof/Refine%s" % name] + ["Props/GenTie%s" % p for p in prop.split(",")]
-            + ["Proof/RefineC17", "Props/GenTie"])
+    out = ["Gen/%s" % name, "Proof/Refine%s" % name]
+    for p in prop.split(","):
+        out += ["Props/GenTie%s" % p, "Proof/Refine%s" % p, "Proof/Refine%sb" % p]
+    return out + ["Props/GenTie"]
 
 
 def _drop_compiled(stem):
@@ -97,9 +102,20 @@ def _plain_call(n, nargs):
     return len(n.args) == nargs and not n.keywords and not any(isinstance(a, ast.Starred) for a in n.args)
 
 
+INT_DTYPES = ("int64", "int32")
+
+
+def _is_int_dtype_kw(n):
+    return (len(n.keywords) == 1 and n.keywords[0].arg == "dtype"
+            and any(_is_attr(n.keywords[0].value, "np", d) for d in INT_DTYPES))
+
+
 class Tr:
-    def __init__(self):
+    def __init__(self, local_names=(), module_ints=None, module_bindings=None):
         self.loop_iters = []  # iterable expressions (ast) of the enclosing for loops
+        self.local_names = set(local_names)   # formals and names assigned in the function
+        self.module_ints = module_ints or {}  # module-level NAME = <int literal>, bound exactly once
+        self.mb = module_bindings or {}
 
     # ------------------------------------------------------------------ expressions
     def expr(self, n, test=False):
@@ -115,17 +131,27 @@ class Tr:
                 raise Unsupported(n, "name in non-load context")
             if n.id in BUILTINS or n.id in ("np", "strax"):
                 raise Unsupported(n, "builtin/module %s used as a value" % n.id)
+            if n.id not in self.local_names:
+                # a global: only a module-level integer constant `NAME = <literal>` is accepted
+                if n.id in self.module_ints:
+                    return "(EInt %s)" % _z(self.module_ints[n.id])
+                raise Unsupported(n, "global name %s is not a module-level integer literal" % n.id)
             return "(EVar %s)" % _s(n.id)
         if isinstance(n, ast.UnaryOp):
             if isinstance(n.op, ast.USub) and _int_const(n.operand):
                 return "(EInt %s)" % _z(-n.operand.value)
             if isinstance(n.op, ast.Not):
                 return "(ENot %s)" % self.expr(n.operand, test=True)
+            if isinstance(n.op, ast.USub):
+                return "(ENeg %s)" % self.expr(n.operand)
             raise Unsupported(n, "unary operator %s" % type(n.op).__name__)
         if isinstance(n, ast.BinOp):
             op = BINOPS.get(type(n.op))
             if op is None:
                 raise Unsupported(n, "binary operator %s" % type(n.op).__name__)
+            if isinstance(n.op, ast.Mult) and self._is_ones(n.left):
+                # np.ones(k, dtype=np.int32) * c
+                return "(EFull %s %s)" % (self.expr(n.left.args[0]), self.expr(n.right))
             return "(EBin %s %s %s)" % (op, self.expr(n.left), self.expr(n.right))
         if isinstance(n, ast.Compare):
             if len(n.ops) != 1 or len(n.comparators) != 1:
@@ -153,6 +179,14 @@ class Tr:
                 return "(EEndtime %s)" % self.expr(n.args[0])
             if self._is_zeros(n):
                 return "(EZeros %s)" % self.expr(n.args[0])
+            if self._is_zeros2(n):
+                return "(EZeros2 %s %s)" % (self.expr(n.args[0].elts[0]), self.expr(n.args[0].elts[1]))
+            if isinstance(f, ast.Attribute) and f.attr == "max" and not n.args and not n.keywords:
+                return "(EMaxOf %s)" % self.expr(f.value)
+            if _is_name(f, "stable_argsort") and len(n.args) == 1 and not isinstance(n.args[0], ast.Starred) \
+                    and len(n.keywords) == 1 and n.keywords[0].arg == "kind" \
+                    and self.mb.get("stable_argsort") == ["from-import"] and "stable_argsort" not in self.local_names:
+                return "(EArgsort %s %s)" % (self.expr(n.args[0]), self.expr(n.keywords[0].value))
             raise Unsupported(n, "call %s" % ast.dump(f)[:60])
         if isinstance(n, ast.Subscript):
             if not isinstance(n.ctx, ast.Load):
@@ -177,10 +211,27 @@ class Tr:
 
     @staticmethod
     def _is_zeros(n):
-        """np.zeros(<e>, dtype=np.int64)"""
+        """np.zeros(<e>, dtype=np.int64 | np.int32), <e> not a tuple"""
         return (isinstance(n, ast.Call) and _is_attr(n.func, "np", "zeros") and len(n.args) == 1
-                and not isinstance(n.args[0], ast.Starred) and len(n.keywords) == 1
-                and n.keywords[0].arg == "dtype" and _is_attr(n.keywords[0].value, "np", "int64"))
+                and not isinstance(n.args[0], (ast.Starred, ast.Tuple, ast.List)) and _is_int_dtype_kw(n))
+
+    @staticmethod
+    def _is_zeros2(n):
+        """np.zeros((<e1>, <e2>), dtype=np.int64 | np.int32)"""
+        return (isinstance(n, ast.Call) and _is_attr(n.func, "np", "zeros") and len(n.args) == 1
+                and isinstance(n.args[0], ast.Tuple) and len(n.args[0].elts) == 2
+                and not any(isinstance(e, ast.Starred) for e in n.args[0].elts) and _is_int_dtype_kw(n))
+
+    @staticmethod
+    def _is_ones(n):
+        """np.ones(<e>, dtype=np.int64 | np.int32)"""
+        return (isinstance(n, ast.Call) and _is_attr(n.func, "np", "ones") and len(n.args) == 1
+                and not isinstance(n.args[0], (ast.Starred, ast.Tuple, ast.List)) and _is_int_dtype_kw(n))
+
+    @classmethod
+    def _is_fresh_array(cls, n):
+        return (cls._is_zeros(n) or cls._is_zeros2(n)
+                or (isinstance(n, ast.BinOp) and isinstance(n.op, ast.Mult) and cls._is_ones(n.left)))
 
     # ------------------------------------------------------------------ statements
     def block(self, stmts):
@@ -195,6 +246,23 @@ class Tr:
     def stmt(self, n):
         if isinstance(n, ast.Pass):
             return "SSkip"
+        if isinstance(n, ast.Expr) and isinstance(n.value, ast.Call) and _is_name(n.value.func, "print") \
+                and "print" not in self.local_names and "print" not in self.mb:
+            for a in n.value.args:  # the arguments must still be expressions of the subset (no effects)
+                if not (isinstance(a, ast.Constant) and isinstance(a.value, str)):
+                    self.expr(a)
+            if n.value.keywords:
+                raise Unsupported(n, "print with keywords")
+            return "SSkip"  # output is not modelled
+        if isinstance(n, ast.Assign) and len(n.targets) > 1:
+            # x = y = <literal>: the value is a constant, so the order of the assignments is immaterial
+            if not all(isinstance(t, ast.Name) for t in n.targets) or not _int_const(n.value):
+                raise Unsupported(n, "chained assignment of a non-literal / to a non-name")
+            out = ["(SAssign %s %s)" % (_s(t.id), self.expr(n.value)) for t in n.targets]
+            res = out[-1]
+            for x in reversed(out[:-1]):
+                res = "(SSeq %s\n %s)" % (x, res)
+            return res
         if isinstance(n, ast.Assign):
             if len(n.targets) != 1 or getattr(n, "type_comment", None):
                 raise Unsupported(n, "multiple assignment targets")
@@ -205,11 +273,16 @@ class Tr:
                 sl = t.slice
                 if isinstance(sl, _AST_INDEX):
                     sl = sl.value
-                if isinstance(sl, (ast.Slice, ast.Tuple)) or (isinstance(sl, ast.Constant) and isinstance(sl.value, str)):
+                if isinstance(sl, ast.Slice) or (isinstance(sl, ast.Constant) and isinstance(sl.value, str)):
                     raise Unsupported(n, "assignment to a slice / field")
                 for it in self.loop_iters:
                     if any(_is_name(m, t.value.id) for m in ast.walk(it)):
                         raise Unsupported(n, "write to an array that an enclosing loop iterates over")
+                if isinstance(sl, ast.Tuple):
+                    if len(sl.elts) != 2 or any(isinstance(e, (ast.Slice, ast.Starred)) for e in sl.elts):
+                        raise Unsupported(n, "index shape")
+                    return "(SSetIndex2 %s %s %s %s)" % (_s(t.value.id), self.expr(sl.elts[0]),
+                                                         self.expr(sl.elts[1]), self.expr(n.value))
                 return "(SSetIndex %s %s %s)" % (_s(t.value.id), self.expr(sl), self.expr(n.value))
             raise Unsupported(n, "assignment target %s" % type(t).__name__)
         if isinstance(n, ast.AugAssign):
@@ -238,15 +311,15 @@ class Tr:
         if isinstance(n, ast.Return):
             if n.value is None:
                 raise Unsupported(n, "bare return")
-            if isinstance(n.value, ast.Tuple):
-                return "(SReturn (ETuple [%s]))" % "; ".join(self.expr(e) for e in n.value.elts)
-            return "(SReturn %s)" % self.expr(n.value)
+            return "(SReturn %s)" % self.ret_expr(n.value)
         if isinstance(n, ast.Raise):
             if n.cause is not None or n.exc is None:
                 raise Unsupported(n, "raise form")
             e = n.exc
-            if isinstance(e, ast.Call) and not e.args and not e.keywords:
-                e = e.func
+            if isinstance(e, ast.Call) and not e.keywords and (
+                    not e.args or (len(e.args) == 1 and isinstance(e.args[0], ast.Constant)
+                                   and isinstance(e.args[0].value, str))):
+                e = e.func  # the message of the exception is dropped, its class is kept
             if isinstance(e, ast.Name):
                 return "(SRaise %s)" % _s(e.id)
             raise Unsupported(n, "raise of a non-name")
@@ -255,6 +328,14 @@ class Tr:
                 raise Unsupported(n, "assert with message")
             return "(SIf %s\n SSkip\n (SRaise %s))" % (self.expr(n.test, test=True), _s("AssertionError"))
         raise Unsupported(n, "statement %s" % type(n).__name__)
+
+    def ret_expr(self, v):
+        """a returned value: tuples (possibly nested) of expressions"""
+        if isinstance(v, ast.Tuple):
+            if any(isinstance(e, ast.Starred) for e in v.elts):
+                raise Unsupported(v, "starred tuple")
+            return "(ETuple [%s])" % "; ".join(self.ret_expr(e) for e in v.elts)
+        return self.expr(v)
 
     def iterable(self, n):
         t, it = n.target, n.iter
@@ -271,6 +352,8 @@ class Tr:
                     self.expr(inner.args[0]), self.expr(inner.args[1])), list(inner.args)
         if isinstance(it, ast.Call) and _is_name(it.func, "range") and _plain_call(it, 1) and isinstance(t, ast.Name):
             return "(IRange %s %s)" % (_s(t.id), self.expr(it.args[0])), [it.args[0]]
+        if isinstance(it, ast.Name) and isinstance(t, ast.Name):
+            return "(IIn %s %s)" % (_s(t.id), self.expr(it)), [it]
         raise Unsupported(n, "for-loop form")
 
 
@@ -316,8 +399,10 @@ def _check_setindex_discipline(fn):
     params = set(a.arg for a in fn.args.args)
     written = set()
     for m in ast.walk(fn):
-        if isinstance(m, ast.Assign) and isinstance(m.targets[0], ast.Subscript) and isinstance(m.targets[0].value, ast.Name):
-            written.add(m.targets[0].value.id)
+        if isinstance(m, ast.Assign):
+            for tg in m.targets:
+                if isinstance(tg, ast.Subscript) and isinstance(tg.value, ast.Name):
+                    written.add(tg.value.id)
     if not written:
         return
     # allowed occurrences of a written array x: x[...] (load or store), len(x), `return x`, `x = np.zeros(..)`
@@ -329,10 +414,14 @@ def _check_setindex_discipline(fn):
             allowed.add(id(m.args[0]))
         elif isinstance(m, ast.Return) and isinstance(m.value, ast.Name):
             allowed.add(id(m.value))
+        elif isinstance(m, ast.Return) and isinstance(m.value, ast.Tuple):
+            for e in m.value.elts:  # returning the arrays ends the function: no alias can be observed
+                if isinstance(e, ast.Name):
+                    allowed.add(id(e))
         elif isinstance(m, ast.Assign) and len(m.targets) == 1 and isinstance(m.targets[0], ast.Name) \
                 and m.targets[0].id in written:
-            if not Tr._is_zeros(m.value):
-                raise Unsupported(m, "array %s is written by index but assigned from something else than np.zeros" % m.targets[0].id)
+            if not Tr._is_fresh_array(m.value):
+                raise Unsupported(m, "array %s is written by index but assigned from something else than a fresh np.zeros / np.ones * c" % m.targets[0].id)
             allowed.add(id(m.targets[0]))
     for m in ast.walk(fn):
         if isinstance(m, ast.Name) and m.id in written and id(m) not in allowed:
@@ -373,7 +462,16 @@ def translate_function(tree, qual, ident):
             and isinstance(body[0].value.value, str):
         body = body[1:]  # docstring
     params = "[%s]" % "; ".join(_s(x.arg) for x in a.args)
-    term = Tr().block(body)
+    module_ints = {}
+    for m in tree.body:
+        if isinstance(m, ast.Assign) and len(m.targets) == 1 and isinstance(m.targets[0], ast.Name) \
+                and mb.get(m.targets[0].id) == ["assign"]:
+            v = m.value
+            if _int_const(v):
+                module_ints[m.targets[0].id] = v.value
+            elif isinstance(v, ast.UnaryOp) and isinstance(v.op, ast.USub) and _int_const(v.operand):
+                module_ints[m.targets[0].id] = -v.operand.value
+    term = Tr(local_names=bound, module_ints=module_ints, module_bindings=mb).block(body)
     return "Definition %s : func :=\n mkfunc %s %s\n %s." % (ident, _s(fn.name), params, term)
 
 
